@@ -86,25 +86,15 @@ def dispatchTiles (shift : Nat) : List (Nat × Nat × Nat × Nat × Nat) → Nat
         && (lo >>> shift) == page && ((hi - 1) >>> shift) == page && decide (hi ≤ 0x110000)
         && dispatchTiles shift rest (off + (hi - lo)) hi len
 
-/-- the table entry the dispatch hands out for `u` (`X` = 8 outside every arm; `none` = index out of bounds) -/
-def dispatchLookup (arms : List (Nat × Nat × Nat × Nat × Nat)) (table : List Nat) (shift u : Nat) : Option Nat :=
-  match arms.find? (fun a => (u >>> shift) == a.1 && decide (a.2.1 ≤ u) && decide (u < a.2.2.1)) with
-  | none => some JoiningType.X.toNat
-  | some a => table[u - a.2.2.2.1 + a.2.2.2.2]?
-
-/-- maximal runs (start, end, entry) of equal non-`X` entries handed out for the code points `lo, lo+1, …` (fuel `n`) -/
-def dispatchRuns (f : Nat → Option Nat) : Nat → Nat → Option (Nat × Nat × Nat) → List (Nat × Nat × Nat)
-  | 0, _, cur => cur.toList
-  | n + 1, u, cur =>
-    match f u, cur with
-    | some r, some (s, e, r') =>
-      if r = r' ∧ e + 1 = u then dispatchRuns f n (u + 1) (some (s, u, r))
-      else if r = JoiningType.X.toNat then (s, e, r') :: dispatchRuns f n (u + 1) none
-      else (s, e, r') :: dispatchRuns f n (u + 1) (some (u, u, r))
-    | some r, none =>
-      if r = JoiningType.X.toNat then dispatchRuns f n (u + 1) none else dispatchRuns f n (u + 1) (some (u, u, r))
-    | none, some c => c :: dispatchRuns f n (u + 1) none
-    | none, none => dispatchRuns f n (u + 1) none
+/-- maximal runs (start, end, entry) of equal non-`X` entries of a table slice whose first entry belongs to code point `u` -/
+def sliceRuns : List Nat → Nat → Option (Nat × Nat × Nat) → List (Nat × Nat × Nat)
+  | [], _, cur => cur.toList
+  | r :: rest, u, some (s, e, r') =>
+      if r = r' then sliceRuns rest (u + 1) (some (s, u, r))
+      else if r = JoiningType.X.toNat then (s, e, r') :: sliceRuns rest (u + 1) none
+      else (s, e, r') :: sliceRuns rest (u + 1) (some (u, u, r))
+  | r :: rest, u, none =>
+      if r = JoiningType.X.toNat then sliceRuns rest (u + 1) none else sliceRuns rest (u + 1) (some (u, u, r))
 
 set_option maxRecDepth 100000 in
 /-- **Every table entry is reachable and no arm is cut short**: the arms of `joining_type()` (parsed from the source on
@@ -119,13 +109,12 @@ theorem C11_dispatch_tiles_table :
 
 set_option maxRecDepth 100000 in
 /-- The per-character table the MODEL uses (`Gen.Arabic.joiningRanges`, dumped through the compiled `joining_type()`)
-    is the parsed `JOINING_TABLE` laid out by the parsed arms: inside every arm the model's raw joining type of a code
-    point is its table entry.  Together with `C11_dispatch_tiles_table`: the model reads every entry of the table at the
+    is the parsed `JOINING_TABLE` laid out by the parsed arms (arm = code points [lo, hi), table slice from its offset):
+    the maximal runs of equal non-`X` entries of the slices, arm after arm, ARE the dumped runs.  Together with `C11_dispatch_tiles_table`: the model reads every entry of the table at the
     code point the table's own layout gives it. -/
 theorem C11_dispatch_is_dumped_table :
     (RbModel.Gen.ArabicDispatch.arms.map (fun a =>
-        dispatchRuns (dispatchLookup RbModel.Gen.ArabicDispatch.arms RbModel.Gen.ArabicDispatch.table
-          RbModel.Gen.ArabicDispatch.shift) (a.2.2.1 - a.2.1) a.2.1 none)).flatten
+        sliceRuns ((RbModel.Gen.ArabicDispatch.table.drop a.2.2.2.2).take (a.2.2.1 - a.2.1)) a.2.1 none)).flatten
       = RbModel.Gen.Arabic.joiningRanges := by
   decide +kernel
 
